@@ -17,7 +17,7 @@ def build_inputs(chk, mdl):
     nstates, suite = parsesuite.automaton_suite(mdl, 0 if tier == "quick" else 1)
     rnd = parsesuite.random_uris(chk.rng, 6000 if tier == "quick" else 120000)
     corpus = parsesuite.repo_corpus()
-    narrow = sorted(set(suite + rnd + corpus))
+    narrow = sorted(set(suite + rnd + corpus + parsesuite.long_texts()))
     wide = set(parsesuite.widen(chk.rng, f) for f in chk.rng.sample(narrow, min(len(narrow), 4000 if tier == "quick" else 40000)))
     # systematic aliases: every position of every short suite string of each accepting control state replaced by code point + 256
     for f in chk.rng.sample(suite, min(len(suite), 600 if tier == "quick" else 6000)):
@@ -94,10 +94,45 @@ def search_failing_input(chk, exes, mdl, corr_breaks, narrow, model_cache):
             if bad: return rq, fl, o, sp, bad
     return None
 
+def check_long(chk, exes):
+    """Texts with a component of 32 767 .. 131 073 characters (or as many segments / query items): valid by construction, or with one
+    character no rule accepts at a known place.  Judged on the implementation alone (the model's list-based parser is quadratic): return
+    code, error position, and for the accepted ones the recomposed text must be the input."""
+    sizes = (32768, 65536, 65537) if chk.tier == "quick" else (32767, 32768, 32769, 65535, 65536, 65537, 131073)
+    cases = parsesuite.long_cases(sizes)
+    plan = {"A": (3,), "W": (5,)} if chk.tier == "quick" else {"A": (3, 2, 0, 5), "W": (3, 4, 5), "A_asan": (3,)}
+    n = 0
+    for fl, entries in plan.items():
+        for e in entries:
+            reqs = ["parse %s %d" % (enc([ord(c) for c in t]), e) for t, _, _ in cases]
+            impl = lib.run_lines(exes[fl], reqs, chunks=min(lib.NCPU, len(reqs)))
+            chk.cov["evaluations"] += len(reqs); n += len(reqs)
+            for (t, rc, pos), rq, o in zip(cases, reqs, impl):
+                of = o.split()
+                what = None
+                if len(of) < 3 or of[0] != "parse" or o.startswith("!"): what = "malformed result / crash on a long text: " + o[:160]
+                elif rc == 0 and of[1] != "0": what = "a valid URI reference with a long component is rejected (rc=%s, position %s)" % (of[1], of[2])
+                elif rc == 1 and of[1] == "0": what = "an invalid long text is accepted"
+                elif rc == 1 and (of[1] != "1" or of[2] != str(pos)): what = "long text: error code %s at position %s, expected the syntax code at %d" % (of[1], of[2], pos)
+                if what: chk.violation(what, {"request": rq[:100] + " ... (%d characters: %s...%s)" % (len(t), t[:12], t[-12:]), "build": fl, "impl": o[:200], "entry": e})
+        # recomposition of the accepted ones
+        good = [t for t, rc, _ in cases if rc == 0]
+        reqs = ["makeowner P " + enc([ord(c) for c in t]) for t in good]
+        impl = lib.run_lines(exes[fl], reqs, chunks=min(lib.NCPU, len(reqs)))
+        chk.cov["evaluations"] += len(reqs); n += len(reqs)
+        for t, rq, o in zip(good, reqs, impl):
+            parts = o.split(" T=")
+            want = enc([ord(c) for c in t])
+            if len(parts) != 3 or not o.startswith("makeowner 0") or parts[1].split()[0] != want or parts[2].split()[0] != want:
+                chk.violation("the recomposed text of a long reference is not the input (borrowed or owned copy)",
+                              {"request": rq[:100] + " ... (%d characters: %s...%s)" % (len(t), t[:12], t[-12:]), "build": fl, "impl": o[:200]})
+    return n
+
 def run(chk):
     proofs = lib.check_proofs(PID)
     exes = lib.build_impl()
     mdl = lib.build_model()
+    nlong = check_long(chk, exes)
     nstates, suite, rnd, corpus, narrow, wide = build_inputs(chk, mdl)
     # request sets
     all_entries = [0, 1, 2, 3, 4, 5, 6, 7, 8]
